@@ -181,6 +181,17 @@ CHECKS = {
             "Displayed path spelling, status with dangling/looping links and depth windows under `symlinks` are "
             "don't-care; the jail bounds any mis-resolution.",
             "DESIGN.md 4 C18"),
+    "C19": ("exploration",
+            "property-based testing (Hypothesis): generated trees with zip archives, differential against (same query "
+            "without `archives`) + Python zipfile member model; top-N metamorphic relation; exhaustive truncation and "
+            "byte-flip fault enumeration of a small archive; pinned process clock",
+            "Row multiset with `archives` must equal the on-disk rows of the same query plus exactly one model row "
+            "per member of every searched archive (extension list incl. overrides and letter case, depth window), "
+            "with size / directory flag / mode / stored time, under WHERE, ORDER BY + LIMIT and aggregates; damaged, "
+            "empty, directory-named and unreadable archives never crash, hang, or cost other rows.",
+            "Python's zipfile is the reference reader; member rows of damaged archives are only required for "
+            "truncations that zipfile still reads identically; unavailable columns are not asserted.",
+            "DESIGN.md 4 C19"),
 }
 
 PENDING = {}
